@@ -183,7 +183,7 @@ def summarize(prog, fn, models=None, opaque=()):
         for conds, leaf in paths(tree):
             if isinstance(leaf, tuple) and leaf and leaf[0] == "exit":
                 kind = "exit:normal" if leaf[1] == ne and classify_exit(fn, leaf[1], body) != "error" else "exit:" + classify_exit(fn, leaf[1], body)
-                ps.append((conds, kind, leaf[1]))
+                ps.append((conds, kind, leaf[1] if len(leaf) < 3 or leaf[2] is None else ("ret", leaf[1], simplify_under(leaf[2], conds))))
             elif isinstance(leaf, tuple) and leaf and leaf[0] == "next":
                 vals = {l: simplify_under(v, conds) for l, v in zip(tracked, leaf[1])}
                 ps.append((conds, "next", vals))
